@@ -243,11 +243,11 @@ def cell_reachable(E, kind):
 
 
 class Obs:
-    __slots__ = ('status', 'n', 'fields', 'headers', 'hdr_ref', 'hdr_len', 'cells', 'panic', 'raw', 'size')
+    __slots__ = ('status', 'n', 'fields', 'headers', 'hdr_ref', 'hdr_len', 'cells', 'panic', 'raw', 'size', 'val')
 
     def __init__(self):
         self.status = None; self.n = None; self.fields = {}; self.headers = []; self.hdr_ref = None; self.hdr_len = None
-        self.cells = None; self.panic = None; self.raw = None; self.size = None
+        self.cells = None; self.panic = None; self.raw = None; self.size = None; self.val = None
 
     def summary(self):
         return (self.status, self.n, tuple(sorted((k, repr(v)) for k, v in self.fields.items())),
@@ -341,7 +341,7 @@ def run_impl(E, I, variant=None, api=None, buflen=None, cells=None, pre=None, fl
             res = E.call_func(f, args)
             o.status, pay = status_of(E, res)
             if o.status == 'C': o.n = pay.v
-            val = box[0]
+            val = box[0]; o.val = val
             for nm in fields:
                 v = val[fields.index(nm)]
                 if nm == 'headers':
